@@ -185,6 +185,29 @@ func ZZC07Par(n int) {
 			},
 		)
 		zzv.Cover("par-shared-options")
+	case 4: // two requests at once through one quiescent Group whose matchers (And / Or / path version / hosts) accept and reject
+		g := NewGroup[*hnd](zzCall, &hnd{id: id404}, zzB405, zzBOpt)
+		ra := g.New("and", AndMatcher(NewPathVersion("v", "v1"), NewHosts(false, "zz.co")))
+		ra.Handle("/x", &hnd{id: 1}, nil, "GET")
+		ro := g.New("or", OrMatcher(NewHosts(false, "yy.co"), AndMatcher(NewPathVersion("w", "v2"), NewHeaderVersion("h", "", func(error) {}, "9"))))
+		ro.Handle("/x", &hnd{id: 2}, nil, "GET")
+		rd := g.New("default", nil)
+		rd.Handle("/v1/x", &hnd{id: 3}, nil, "GET")
+		rd.Handle("/v2/x", &hnd{id: 4}, nil, "GET")
+		serve := func(path string) *zzObs {
+			o := &zzObs{}
+			w := newW()
+			w.obs = o
+			g.ServeHTTP(w, zzReq("GET", path))
+			return o
+		}
+		var o1, o2 *zzObs
+		zzv.Par(
+			func() { o1 = serve("/v1/x") },
+			func() { o2 = serve("/v2/x") },
+		)
+		zzv.Cover("par-group-requests")
+		zzv.Assert(o1.id == 3 && o1.nparams == 0 && o2.id == 4 && o2.nparams == 0, "par:group-request-served-by-the-wrong-router-or-with-leftover-parameters")
 	default: // concurrent requests on one quiescent router, with (12,13) and without (10,11) WithLock
 		var r *Router[*hnd]
 		if n >= 12 {
